@@ -43,8 +43,8 @@ def parse_trace(line):
 
 class Check(DiffCheck):
     id = 'C03'
-    coq_dirs = ['Base', 'C04', 'C03']
-    coq_targets = ['C03/C03_WF.vo', 'C03/C03_Proofs.vo', 'C03/C03_Queue.vo']
+    coq_dirs = ['Base', 'C03']          # + coq/C04/C04_Heap.v alone (scanned in extra(); the rest of C04 is another property's)
+    coq_targets = ['C03/C03_WF.vo', 'C03/C03_Proofs.vo', 'C03/C03_Queue.vo', 'C03/C03_Notify.vo']
     properties_v = 'C03/C03_Properties.v'
     extract_v = 'C03/C03_Extract.v'
     runner_ml = 'ocaml/C03_run.ml'
@@ -64,12 +64,41 @@ class Check(DiffCheck):
     def build_impl(self):
         sys.path.insert(0, os.path.join(VERIF, 'harness', 'E2'))
         import e2lib
-        return e2lib.build_impl(self.id, ['harness/C03/ops_c03.cpp'])
+        exe = e2lib.build_impl(self.id, ['harness/C03/ops_c03.cpp'], out=os.path.join(BUILD, 'bin', 'C03_e2'))
+        # The E2 driver reports HANG after a REAL-time limit; on a heavily loaded machine a healthy case can exceed it.
+        # No verdict may depend on real time: a case whose line is HANG/NONDET/NOOUTPUT is re-run alone with a much
+        # longer limit before its result is used (a genuine hang stays a HANG and costs the long limit once).
+        wrap = os.path.join(BUILD, 'bin', 'C03_impl')
+        with open(wrap, 'w') as f:
+            f.write('''#!/usr/bin/env python3
+import sys, os, subprocess, tempfile
+exe = %r
+def run(lines, ms):
+    with tempfile.NamedTemporaryFile('w', suffix='.cases', delete=False) as t:
+        t.write('\\n'.join(lines) + '\\n'); fn = t.name
+    env = dict(os.environ, E2_TIMEOUT_MS=str(ms))
+    out = subprocess.run([exe, fn], stdout=subprocess.PIPE, universal_newlines=True, env=env).stdout.split('\\n')
+    os.unlink(fn)
+    return out[:len(lines)] + ['NOOUTPUT'] * (len(lines) - len(out[:len(lines)]))
+cases = [l for l in open(sys.argv[1]).read().split('\\n') if l and not l.startswith('#')]
+suspicious = lambda l: l.startswith(('HANG', 'NONDET', 'NOOUTPUT', 'PIPEFAIL')) or l == ''
+CH = 25
+for i in range(0, len(cases), CH):
+    chunk = cases[i:i + CH]
+    res = run(chunk, 60000)
+    for c, l in zip(chunk, res):
+        if suspicious(l):
+            l = run([c], 600000)[0]
+        print(l); sys.stdout.flush()
+''' % exe)
+        os.chmod(wrap, 0o755)
+        return wrap
 
-    def impl_env(self):
-        e = DiffCheck.impl_env(self)
-        e['E2_TIMEOUT_MS'] = '20000'
-        return e
+    def extra(self, ctx):
+        # the one file of coq/C04 this development depends on must be free of forbidden declarations too
+        txt = re.sub(r'\(\*.*?\*\)', ' ', open(os.path.join(COQ, 'C04', 'C04_Heap.v')).read(), flags=re.S)
+        hits = [m.group(1) for m in FORBIDDEN.finditer(txt)]
+        return [dict(kind='proof', message='forbidden declarations in coq/C04/C04_Heap.v: %s' % hits, case=None)] if hits else []
 
     # ------------------------------------------------------------------ generator
     def gen_program(self, rng, malformed=False):
